@@ -21,7 +21,8 @@ PROPERTY = "C09"
 LEVEL = "exploration"
 RULE = (
     "Well-formed tasks from (a) real eliot runs of generated logging programs (nested/failed actions, remote sub-tasks, "
-    "context-less messages, several tasks) and (b) an independent synthetic writer of well-formed task levels; over them "
+    "context-less messages, several tasks) and (b) an independent synthetic writer of well-formed task levels (nested up to "
+    "depth 5, and wide actions with up to 24 children so that positions reach two digits); over them "
     "ALL permutations of arrival order when the set has <= 6 (quick) / 7 (thorough) messages, otherwise Hypothesis-"
     "generated permutations and task interleavings; ALL subsets when <= 9 (quick) / 12 (thorough) messages, otherwise "
     "generated subsets. Oracles: Task equality across orders, equality with an independent reference tree, completion "
@@ -55,7 +56,20 @@ def tree_shapes(max_depth=4, width=3):
             kids = st.tuples(side, below, side).map(lambda p: p[0] + [p[1]] + p[2])
         return st.builds(lambda kids, status: {"kids": kids, "status": status}, kids, status)
 
-    return st.one_of(st.just("m"), st.integers(0, max_depth).flatmap(level), st.integers(1, max_depth).flatmap(level))
+    def wide(n_kids, action_positions, sub):
+        # one action with many children (positions reach two digits), some of them sub-actions
+        kids = ["m"] * n_kids
+        for p_ in action_positions:
+            kids[p_ % n_kids] = sub
+        return {"kids": kids, "status": "succeeded"}
+
+    wide_shapes = st.builds(
+        wide,
+        st.integers(9, 24),
+        st.lists(st.integers(0, 23), min_size=2, max_size=5),
+        st.one_of(level(0), level(1)),
+    )
+    return st.one_of(st.just("m"), st.integers(0, max_depth).flatmap(level), st.integers(1, max_depth).flatmap(level), wide_shapes)
 
 
 def shapes_with(n, memo={}):
